@@ -12,9 +12,9 @@ def exprIsCall : Expr → Bool
   | .call _ => true
   | _ => false
 
-/-- `expression_is_nil` (sic: the parenthesised arm delegates to `expression_is_call`) -/
+/-- `expression_is_nil` -/
 def exprIsNil : Expr → Bool
-  | .paren _ e => exprIsCall e
+  | .paren _ e => exprIsNil e
   | .nil _ => true
   | _ => false
 
@@ -78,9 +78,10 @@ def unbalanced (lhs : Nat) (rhs : List Expr) : Prop :=
 
 end Doc
 
-/-- the one spelling on which the code departs from the documented condition: a parenthesised `nil` last -/
-def parenthesisedNil : Expr → Bool
-  | .paren _ e => Doc.denotesNil e
+/-- where the code is *more* lenient than the documented condition: a parenthesised call in last position is
+    treated like a call, although the parentheses truncate it to one value (never a false positive) -/
+def parenthesisedCall : Expr → Bool
+  | .paren _ e => exprIsCall e
   | _ => false
 
 end Selene.LintsB.UnbalancedAssignments
